@@ -4,6 +4,13 @@ macro_rules! opaque_msg {
     () => { crate::shims::fmt::opaque_msg() };
     ($($arg:expr),+ $(,)?) => { { $( let _ = &$arg; )+ crate::shims::fmt::opaque_msg() } };
 }
+// assert! / debug_assert! (message arguments are dropped) and unreachable!: panics = obligations
+macro_rules! rt_assert {
+    ($c:expr $(, $($rest:tt)*)?) => { crate::shims::rt_assert($c) };
+}
+macro_rules! rt_unreachable {
+    ($($rest:tt)*) => { crate::shims::rt_unreachable() };
+}
 // futures::ready!
 macro_rules! futures_ready {
     ($e:expr $(,)?) => {
